@@ -30,6 +30,7 @@ import (
 	"github.com/ipld/go-ipld-prime/node/gendemo"
 	"github.com/ipld/go-ipld-prime/printer"
 	"github.com/ipld/go-ipld-prime/schema"
+	"github.com/ipld/go-ipld-prime/storage/fsstore"
 	"github.com/ipld/go-ipld-prime/storage/memstore"
 	"github.com/ipld/go-ipld-prime/traversal"
 	"github.com/ipld/go-ipld-prime/traversal/selector"
@@ -108,6 +109,19 @@ type world struct {
 	lp       cidlink.LinkPrototype
 	blockLnk []datamodel.Link
 	profile  int
+	backend  string
+	cleanup  func()
+}
+
+// failingWriter fails its n-th Write (a consumer's writer is the consumer's own; encoding a shared node into it is a read of the node).
+type failingWriter struct{ n, at int }
+
+func (f *failingWriter) Write(p []byte) (int, error) {
+	f.n++
+	if f.n-1 == f.at {
+		return 0, fmt.Errorf("writer failed at write %d", f.at)
+	}
+	return len(p), nil
 }
 
 func newPerson(i int) *Person {
@@ -132,10 +146,30 @@ func buildWorld(t *sim.Tape) *world {
 	}
 	w.ts = ts
 	w.profile = t.Choice(3, "profile") // 0 fully configured; 1 Config with nil Ctx/chooser; 2 inferred schemas too
-	ms := &memstore.Store{}
 	w.lsys = cidlink.DefaultLinkSystem()
-	w.lsys.SetReadStorage(ms)
-	w.lsys.SetWriteStorage(ms)
+	if t.Choice(3, "cfg.fsstore") == 0 {
+		// the filesystem store as the shared read-only store (real files under the child's scratch directory)
+		dir, derr := os.MkdirTemp("/dev/shm", "verif-c20-store-")
+		if derr != nil {
+			dir, derr = os.MkdirTemp("", "verif-c20-store-")
+		}
+		if derr != nil {
+			panic(derr)
+		}
+		w.cleanup = func() { os.RemoveAll(dir) }
+		fs := &fsstore.Store{}
+		if err := fs.InitDefaults(dir); err != nil {
+			panic(err)
+		}
+		w.lsys.SetReadStorage(fs)
+		w.lsys.SetWriteStorage(fs)
+		w.backend = "fsstore"
+	} else {
+		ms := &memstore.Store{}
+		w.lsys.SetReadStorage(ms)
+		w.lsys.SetWriteStorage(ms)
+		w.backend = "memstore"
+	}
 	g, err := gen.NewGraph(t, &w.lsys, 6, 0)
 	if err != nil {
 		panic(err)
@@ -206,11 +240,11 @@ func avHash(n datamodel.Node) string {
 	return fmt.Sprintf("%x", v.Hash())
 }
 
-const nOps = 24
+const nOps = 26
 
 var opNames = []string{"read-basicnode", "read-bindnode-type", "read-bindnode-repr", "deepequal", "copy", "encode-dagcbor", "encode-dagjson", "encode-bindnode-repr",
 	"computelink", "load", "loadraw", "walkadv", "walkmatching", "get-path", "build-from-shared-prototype", "wrap-with-shared-type", "wrap-inferred", "registry-lookup",
-	"print", "read-gendemo", "build-gendemo", "compile-selector", "typesystem-read", "prototype-inferred"}
+	"print", "read-gendemo", "build-gendemo", "compile-selector", "typesystem-read", "prototype-inferred", "encode-to-failing-writer", "encode-after-failed-encode"}
 
 // doOp performs one read-only operation on the shared world and returns a digest of its result.
 func (w *world) doOp(op, arg int) string {
@@ -350,6 +384,19 @@ func (w *world) doOp(op, arg int) string {
 			}
 		}
 		return sb.String()
+	case 24, 25:
+		// encode a shared map-bearing node into a writer that fails at its arg-th write, then (25) encode again properly
+		fw := &failingWriter{at: arg}
+		err := dagcbor.Encode(w.n1, fw)
+		out := fmt.Sprint(err != nil)
+		if op == 25 {
+			var buf bytes.Buffer
+			err2 := dagcbor.Encode(w.bn.Representation(), &buf)
+			var buf2 bytes.Buffer
+			err3 := dagcbor.Encode(w.n1, &buf2)
+			out += fmt.Sprintf(" %x %v %x %v", sim.HashString(buf.String()), err2, sim.HashString(buf2.String()), err3)
+		}
+		return out
 	case 23:
 		if w.profile != 2 {
 			return "skip"
@@ -404,6 +451,7 @@ func panicString(r interface{}) string {
 type ChildResult struct {
 	Tape     []sim.Entry `json:"tape"`
 	Profile  int         `json:"profile"`
+	Backend  string      `json:"backend"`
 	Tasks    [][]string  `json:"tasks"` // planned ops per task
 	Mismatch []string    `json:"mismatch"`
 	Panics   []string    `json:"panics"`
@@ -441,7 +489,10 @@ func ChildMain(args []string) int {
 		t.Forced = in.Forced
 	}
 	w := buildWorld(t)
-	res := &ChildResult{Profile: w.profile}
+	if w.cleanup != nil {
+		defer w.cleanup()
+	}
+	res := &ChildResult{Profile: w.profile, Backend: w.backend}
 	ntasks := 2 + t.Choice(5, "ntasks")
 	type planned struct{ op, arg int }
 	plans := make([][]planned, ntasks)
